@@ -228,7 +228,11 @@ def adfStep (a : AdfSt) (l : String) (ws : List String) : Option (List String ×
   | ["cliq", _] => some ([l, "~ exit=0 T(a&b)_T(c)"], a)
   -- a condition nested `depth` levels deep: `neg^d(a)` is `a` or `¬a`, so `a` stays undecided;
   -- `and(b, and(b, … a))` with the fact `b` is equivalent to `a`, so `a` stays undecided and `b` is true
-  | ["clideep", shape, _, _] => some ([l, if shape == "neg" then "~ exit=0 u(a)" else "~ exit=0 u(a)_T(b)"], a)
+  -- `wide`: x0 ← conjunction of all other statements, which are facts: everything is true
+  | ["clideep", shape, d, _] =>
+    some ([l, if shape == "neg" then "~ exit=0 u(a)"
+              else if shape == "wide" then s!"~ exit=0 statements={d} all-true=1"
+              else "~ exit=0 u(a)_T(b)"], a)
   | ["present", _, _, _, _] => some ([l, "= ok"], a)
   | ["presented", perm, order] =>
     match parseNatList perm ",", parseNatList order "," with
